@@ -1,7 +1,7 @@
 SPECIFICATION TraceSpec
 CONSTANTS
   Prefixes = {"x1", "x2", "y1", "y2"}
-  KF = {"pfx", "stuck", "failconn", "lldrop"}
+  KF = {"pfx", "stuck", "failconn", "lldrop", "llstuck"}
   Triage = FALSE
 CONSTRAINT TraceConstraint
 POSTCONDITION TraceAccepted
@@ -19,6 +19,7 @@ INVARIANTS
   C12_SecondLoss_KF
   C12_LlgrDepreferencedAndRestricted_KF
   C12_StaleUsableMarked_KF
+  C12_ReannouncedAreFresh_KF
   C12_PurgeExactlyWhen_KF
   C12_NoForeignRoutes_KF
-  C12_DeferralWithholds
+  C12_DeferralWithholds_KF
